@@ -286,6 +286,7 @@ def _make_simlink_class():
             self.seq = 0
             self.tx = []            # (time, port, channel, bytes, closed?)
             self.rx_log = []
+            self.order = []         # ('tx'|'rx', index into tx / rx_log) in the order things happened
             self.wakeup = dsched._Waitable()
             self.exchanged = 0
             self.err_cb = None
@@ -342,6 +343,7 @@ def _make_simlink_class():
             w = self.world
             data = bytes(pk.data)
             self.tx.append((s.now, pk.port, pk.channel, data, closed_at_entry))
+            self.order.append(('tx', len(self.tx) - 1))
             if self.closed:
                 return
             if w.on_send:
@@ -395,6 +397,7 @@ def _make_simlink_class():
                     pk.set_header(port, ch)
                     pk.data = data
                     self.rx_log.append((s.now, port, ch, bytes(data)))
+                    self.order.append(('rx', len(self.rx_log) - 1))
                     r = self._count()
                     if r == 'sender':
                         pass    # sender-reported faults only fire from send_packet
